@@ -37,7 +37,7 @@ func main() {
 			"no cluster: the router is a real sourcerunner.SourceRunner deployed against recording proto.Operator stubs (its routeEvent picks the batcher), the persisting side is a real KeyedStateStore + TimerStore over a real dkv.DB per operator, the ownership filter is OperatorPartition.OwnsKey",
 			"OperatorPartition has no exported constructor: its key-group range is set through reflection (field keyGroupRange); operator.go builds it from KeySpace.KeyGroupRanges()[ownIndex], which the monitor does too",
 		}, assume...),
-			Rule: "configurations (groups, operators): (1,1) (7,3) (256,1..4) (1000,3) (65535,2) (2,3) then seeded random ones incl. operators > groups; 60..200 subject keys per case: M1 atoms, random bytes, and keys engineered (hash inversion) to sit on the first and last group of every range. Each key is (a) emitted by a source reader into a real SourceRunner, the operator stub that receives it is the routed index; (b) written as state entry + timer through the stores of THAT operator; then every key persisted in each operator's DKV (full scan of the database and of its checkpointed copy) is decoded. Oracle: routed index == index of the range containing reference_hash(key) mod groups == KeySpace.RangeIndex; every persisted key starts with that group big-endian, decodes to a written (subject key, entry) and nothing written is missing; OwnsKey is true for the owner and false for every other operator; GetState returns the entries. Operators with an empty range must construct and stay empty. non-trivial = >=2 operators received keys; distinct by configuration + key set"},
+			Rule: "configurations (groups, operators): (1,1) (7,3) (256,1..4) (1000,3) (65535,2) (2,3) then seeded random ones incl. operators > groups; 60..200 subject keys per case: M1 atoms, random bytes, and keys engineered (hash inversion) to sit on the first and last group of every range. Each key is (a) emitted by a source reader into a real SourceRunner, the operator stub that receives it is the routed index; (b) written as state entry + timer through the stores of THAT operator; then every key persisted in each operator's DKV (full scan of the database and of its checkpointed copy) is decoded. Oracle: routed index == index of the range containing reference_hash(key) mod groups == KeySpace.RangeIndex; a third of the runners (plain builds) are first deployed, idle, for an assembly with another operator count and then in place for the one under test; the timer store built over each operator's re-opened checkpoint pops exactly the timers written through that operator, in time order; every persisted key starts with that group big-endian, decodes to a written (subject key, entry) and nothing written is missing; OwnsKey is true for the owner and false for every other operator; GetState returns the entries. Operators with an empty range must construct and stay empty. non-trivial = >=2 operators received keys; distinct by configuration + key set"},
 	)
 }
 
